@@ -197,6 +197,15 @@ def regex_statics_in(f, body):
     return out
 
 
+def _op_of(cls, desc):
+    """operation and failing side of a site: `index_mut #upper`"""
+    if cls == "S5":
+        return desc
+    m = re.match(r"^([A-Za-z_][\w:]*)", desc)
+    part = re.search(r" (#[a-z+0-9!<>= ()&*._-]+)$", desc)
+    return (m.group(1) if m else desc.split("(")[0]) + ((" " + part.group(1)) if part else "")
+
+
 _IDENT = re.compile(r"[A-Za-z_][A-Za-z0-9_]*")
 
 
@@ -354,9 +363,22 @@ def run_scope(chk, scope, roots, floor_roots, floor_bodies, floor_sinks, reviewe
             if fin != F.short_name(rec["origin"]):
                 key += "|in=" + fin
                 fine += "|in=" + fin
-            chk.finding(key, detail=fine, rule="R-PANIC/%s" % rec["cls"], where="%s:%s" % (rec["file"], rec["line"]), fn=F.short_name(rec["origin"]),
+            chk.finding(key, detail=fine, moved=(rec["origin"], rec["cls"], _op_of(rec["cls"], rec["desc"])), rule="R-PANIC/%s" % rec["cls"],
+                        where="%s:%s" % (rec["file"], rec["line"]), fn=F.short_name(rec["origin"]),
                         what=rec["what"], why="not discharged by D1-D8, not trusted (T1,T2,T5), not lifted to a caller that proves it",
                         path=" <- ".join(F.short_name(x) for x in chain[:6]), undischarged_in=fin)
+    # a reviewed / known site that has left function f and shows up, as the same kind of operation, in a function f calls is the
+    # same site in an extracted helper (see Check.finish)
+    by_short = {}
+    for bid_ in f.bodies:
+        by_short.setdefault(F.short_name(bid_), []).append(bid_)
+    prev = getattr(chk, "calls_into", None)
+
+    def calls_into(fn_short, origin_id, _prev=prev):
+        if any(origin_id in g.callees(x) for x in by_short.get(fn_short, ())):
+            return True
+        return bool(_prev and _prev(fn_short, origin_id))
+    chk.calls_into = calls_into
     chk.floor("R-PANIC", "%s sinks classified" % scope, n_sinks, floor_sinks)
     chk.cov.setdefault("scopes", OrderedDict())[scope] = OrderedDict(
         roots=len(roots), reachable_bodies=len(bodies), sinks_by_class=dict(sorted(stats.items())),
